@@ -2,12 +2,15 @@
 C10 — Monotone tests: exact core in O(m log n) tests.
 
 Proved: the "returns exactly that core" half, for every n, every core, every clock, every
-`--max ≥ 1`, both repeat modes that the property's "default options" allow.
-NOT proved: the test-count bound `(2m+1)*ceil(log2 n) + 5m + 8`; its statement is kept below as
-`C10_test_bound_statement` and is decided by the monitor of `harness/props/c10.py` only (every
-(n, core) for small n, structured cores for n up to thousands) — DESIGN.md §0, C10.
+`--max ≥ 1`, both repeat modes that the property's "default options" allow; and the test-count
+bound `(2m+1)*ceil(log2 n) + 5m + 8` (`C10_test_bound`, `C10_test_bound_default`) for every n
+whose first chunk size is not cut by `--max` (default `--max` = 2^30: every n ≤ 2^31), by a
+potential argument over the rounds (LithiumProofs/CoreBound.lean).  For n > 2^31 with the default
+`--max` the bound is false of the code as well (`C10_bound_needs_max`: the first round alone makes
+n / 2^30 tests) — DESIGN.md §0, C10.
 -/
 import LithiumProofs.Core
+import LithiumProofs.CoreBound
 import LithiumProps.C03
 import LithiumProps.C04
 
@@ -146,13 +149,51 @@ theorem C10_exact_core_parts (cfg : Cfg) (f : Bytes → Bool) (clk : Clock) (t :
     (C04_deletion_minimize cfg (fun _ c => f c) clk t h hmax).1.2.2.1
   exact (map_fst_zip' _ _ hwf).symm
 
-/-- The other half of the property at full strength — NOT proved (monitor only): the number of
-tests, with the initial check of the original, is at most `(2m+1)*ceil(log2 n) + 5m + 8`. -/
-def C10_test_bound_statement : Prop :=
-  ∀ (f : Bytes → Bool) (clk : Clock) (t : Testcase) (core : List Bytes),
-    t.WF → (∀ p ∈ t.parts, p ≠ []) → t.parts.Nodup → core.Nodup →
-    (∀ p ∈ core, (p, true) ∈ t.parts.zip t.reducible) → CoreTest t core f →
-    (minimize {} (fun _ c => f c) clk t).nTests + 1 ≤ (2 * core.length + 1) * clog2 t.len + 5 * core.length + 8
+/-- The other half of the property: with distinct non-empty atoms, a duplicate-free core of
+reducible atoms and a test that accepts exactly the files still containing the core, minimize with
+smallest chunk size 1, repeat mode `last`, no repeated first round and a `--max` that does not cut
+the first chunk size (`largest_power_of_two_smaller_than(n) ≤ max`) makes, the initial check of the
+original included, at most `(2m+1)*ceil(log2 n) + 5m + 8` tests — for EVERY n, every core, every
+clock and every time limit (a run that is cut short by the time limit makes fewer tests). -/
+theorem C10_test_bound (cfg : Cfg) (f : Bytes → Bool) (clk : Clock) (t : Testcase) (core : List Bytes)
+    (h : t.WF) (hne : ∀ p ∈ t.parts, p ≠ []) (hdistinct : t.parts.Nodup) (hcn : core.Nodup)
+    (hcore : ∀ p ∈ core, (p, true) ∈ t.parts.zip t.reducible) (hf : CoreTest t core f)
+    (hmin : cfg.min = 1) (hrep : cfg.rep = .last) (hrf : cfg.repeatFirst = false)
+    (hmax : Util.lp2 t.len ≤ cfg.max) :
+    (minimize cfg (fun _ c => f c) clk t).nTests + 1
+      ≤ (2 * core.length + 1) * clog2 t.len + 5 * core.length + 8 :=
+  core_test_bound cfg f clk t core ⟨h, hdistinct, hcn, hcore, hf⟩ hne hmin hrep hrf hmax
+
+/-- with the default options (`{}`: min 1, max 2^30, repeat last) the bound holds for every file
+of at most 2^31 atoms -/
+theorem C10_test_bound_default (f : Bytes → Bool) (clk : Clock) (t : Testcase) (core : List Bytes)
+    (h : t.WF) (hne : ∀ p ∈ t.parts, p ≠ []) (hdistinct : t.parts.Nodup) (hcn : core.Nodup)
+    (hcore : ∀ p ∈ core, (p, true) ∈ t.parts.zip t.reducible) (hf : CoreTest t core f)
+    (hn : t.len ≤ 2 ^ 31) :
+    (minimize {} (fun _ c => f c) clk t).nTests + 1
+      ≤ (2 * core.length + 1) * clog2 t.len + 5 * core.length + 8 := by
+  refine C10_test_bound {} f clk t core h hne hdistinct hcn hcore hf rfl rfl rfl ?_
+  show Util.lp2 t.len ≤ 2 ^ 30
+  by_cases h1 : t.len ≤ 1
+  · rw [Util.lp2_le_one t.len h1]; exact Nat.one_le_two_pow
+  · -- lp2 n is a power of two below n ≤ 2^31
+    obtain ⟨j, hj⟩ := Util.lp2_pow2 t.len
+    have hlt := Util.lp2_lt t.len (by omega)
+    rw [hj] at hlt ⊢
+    have hj31 : 2 ^ j < 2 ^ 31 := by omega
+    have : j < 31 := (Nat.pow_lt_pow_iff_right (by omega)).mp hj31
+    exact Nat.pow_le_pow_right (by omega) (by omega)
+
+/-- the hypothesis on `--max` is needed: when `--max` cuts the first chunk size the first round alone
+makes `n / max` tests.  Here `--max 1`, 16 one-byte atoms, empty core (every file is interesting):
+17 tests against a bound of 12.  With the default `--max` = 2^30 the same happens from n > 2^31
+atoms on, which is why `C10_test_bound_default` stops there. -/
+theorem C10_bound_needs_max :
+    let t : Testcase := { before := [], parts := (List.range 16).map (fun i => [UInt8.ofNat i]),
+                          reducible := List.replicate 16 true, after := [] }
+    (minimize { max := 1 } (fun _ _ => true) (fun _ => 0) t).nTests + 1 = 17 ∧
+      (2 * 0 + 1) * clog2 t.len + 5 * 0 + 8 = 12 := by
+  decide +kernel
 
 /-- the hypothesis `CoreTest` is satisfiable for every core: with one-byte atoms and core bytes
 that do not occur in the protected prefix/suffix, "the file contains every core byte" is such a
